@@ -88,6 +88,9 @@ def endings_for(tree: list[dict[str, Any]]) -> list[dict[str, Any]]:
     for sig in ("SIGINT", "SIGTERM"):
         out.append({"kind": "signal_after", "sig": sig, "cli": False})
         out.append({"kind": "signal_during_run", "sig": sig, "cli": True})
+        # the signal arrives while the last start-up step cannot be interrupted (a blocking call in a worker thread): whether that
+        # still counts as "during start-up" the statement does not say - but the application ends and is torn down
+        out.append({"kind": "signal_shielded", "sig": sig, "cli": False})
     out.append({"kind": "service_crash_after", "exc": "Custom", "cli": False})
     out.append({"kind": "service_crash_after", "exc": "ValueError", "cli": True})
     out.append({"kind": "service_crash_during", "exc": "ValueError", "cli": False})
@@ -288,6 +291,10 @@ class Scenario:
                 sc.raise_signal(ending["sig"])
                 await anyio.sleep(30)  # start-up would go on; the signal must interrupt it
                 sc.log("startup-continued-after-signal", path)
+            if ending["kind"] == "signal_shielded" and path == "" and phase == "start":
+                with anyio.CancelScope(shield=True):
+                    sc.raise_signal(ending["sig"])
+                    await anyio.sleep(0.5)
             if ending["kind"] == "timeout" and path == ending.get("path", "") and phase == ending.get("phase", "start"):
                 await anyio.sleep(1000)
             if path == "" and phase == "start" and ending["kind"] in ("signal_after", "service_crash_after"):
@@ -382,7 +389,7 @@ class Scenario:
         root = self.build()
         if case["backend"] == "trio":
             vtime._seed_trio(case["sched_seed"], False)
-        timeout = 10 if case["ending"]["kind"] == "timeout" else 500
+        timeout = 10 if case["ending"]["kind"] == "timeout" else (None if case["ending"]["kind"] == "signal_shielded" else 500)
         self.log("call", "harness")
         with warnings.catch_warnings(record=True) as w:
             warnings.simplefilter("always")
@@ -412,7 +419,7 @@ def check(sc: Scenario) -> tuple[list[dict[str, Any]], dict[str, int]]:
     kind = ending["kind"]
     c[{"result": "ending_result", "run_raises": "ending_run_raises", "fail": "ending_fail", "timeout": "ending_timeout", "signal_startup": "ending_signal_startup",
        "signal_after": "ending_signal_after", "signal_during_run": "ending_signal_during_run", "service_crash_after": "ending_service_crash_after",
-       "service_crash_during": "ending_service_crash_during"}[kind]] = 1
+       "service_crash_during": "ending_service_crash_during", "signal_shielded": "ending_signal_during_an_uninterruptible_last_startup_step"}[kind]] = 1
     if any(e["kind"] == "signal-not-armed" for e in ev):
         bad("app-signal-receiver-missing", f"no handler was installed for {ending.get('sig')} when the scenario wanted to deliver it")
     # ---- teardown: exactly once, reverse order, before run_application came back
@@ -462,13 +469,17 @@ def check(sc: Scenario) -> tuple[list[dict[str, Any]], dict[str, int]]:
             bad(f"app-outcome[{kind}]", f"ending {ending}: expected SystemExit(1), got {describe_outcome(o)}")
         if kind == "signal_startup" and any(e["kind"] == "startup-continued-after-signal" for e in ev):
             bad("app-signal-ignored", f"start-up continued for 30 virtual seconds after {ending['sig']} was delivered")
+    elif kind == "signal_shielded":
+        if o not in (("return", None), ("exit", 1)):
+            bad("app-outcome[signal_shielded]", f"{ending['sig']} during an uninterruptible last start-up step: expected a clean return or SystemExit(1), "
+                                                f"got {describe_outcome(o)}")
     elif kind == "signal_after":
         if o != ("return", None):
             bad("app-outcome[signal_after]", f"{ending['sig']} after start-up of a non-CLI application: expected a clean return, got {describe_outcome(o)}")
     elif kind == "service_crash_after":
         if o[0] != "raise" or not contains_same(o[1], sc.injected):
             bad("app-outcome[service_crash]", f"a service task raised {describe_exc(sc.injected)} after start-up: expected it to propagate, got {describe_outcome(o)}")
-    if kind in ("signal_after", "signal_during_run", "signal_startup") and not any(e["kind"] in ("signal-raised", "signal-not-armed") for e in ev):
+    if kind in ("signal_after", "signal_during_run", "signal_startup", "signal_shielded") and not any(e["kind"] in ("signal-raised", "signal-not-armed") for e in ev):
         bad("app-ended-too-early", f"the application ended ({describe_outcome(o)}) before the scenario could deliver {ending['sig']}: a started non-CLI "
                                    f"application must keep running until it is told to stop")
     if kind == "service_crash_after" and not any(e["kind"] == "service-crash" for e in ev):
